@@ -448,6 +448,7 @@ func init() {
 			},
 			RunDeadline: 120 * time.Second,
 			Procs:       true,
+			Post:        fidelityPass,
 			Assumptions: []string{
 				"the model encodes the documented semantics (usage text, xz-utils conventions the property names): suffix rules incl. .txz/.tlz -> .tar, -k/-c keep the input, -c writes only to stdout, no overwrite without -f, per-file format detection, independence of operands, exit status non-zero iff some operand failed, output mode a subset of the input mode",
 				"file names that gflag's optional-argument rule for boolean flags could swallow ('true', '1', ...) are not generated; stderr is not compared",
